@@ -249,6 +249,23 @@ func replay(cfg *node.Config, d *Dump) {
 				n.Ex.VerifSingleCommitValidator(msg.Encode())
 			}
 		}
+		// what Certify and the gossip validator let into the pool: a commit for height h only by a validator that is
+		// active (positive BFT weight) in the parameters of height h
+		for h := d.State.Cert + 1; h <= d.State.Mhpc; h++ {
+			ps := n.ParamsAt(h)
+			for _, sc := range n.Ex.VerifPool().Get(h) {
+				active := false
+				for id := 1; id <= cfg.NVal; id++ {
+					if bytes.Equal(node.Validator(id).Address, sc.ValidatorAddress()) && id <= len(ps.W) && ps.W[id-1] > 0 {
+						active = true
+					}
+				}
+				if !active {
+					viol("pool-admits-inactive-validator", fmt.Sprintf("after Certify(%d, %d] by %v the pool holds a single commit for height %d by a validator that is not active at that height", d.State.Cert, d.State.Mhpc, r.Certifiers, h),
+						map[string]interface{}{"script": d.Script, "state": d.State, "pool": r})
+				}
+			}
+		}
 		regossip := poolCase%2 == 1
 		if r.Regossip != nil {
 			regossip = *r.Regossip
